@@ -525,7 +525,12 @@ pub fn init() {
         let fd = libc::memfd_create(c"xaddsim-page".as_ptr(), 0);
         assert!(fd >= 0, "memfd_create");
         assert_eq!(libc::ftruncate(fd, PAGE as i64), 0);
-        let prog_view = libc::mmap(std::ptr::null_mut(), PAGE, libc::PROT_NONE, libc::MAP_SHARED, fd, 0);
+        // the program view sits between two inaccessible guard pages, so that an access that misses
+        // the region by less than a page faults (and is recovered as a crash of that execution)
+        // instead of landing in some other mapping of the harness
+        let span = libc::mmap(std::ptr::null_mut(), 3 * PAGE, libc::PROT_NONE, libc::MAP_PRIVATE | libc::MAP_ANONYMOUS, -1, 0);
+        assert!(span != libc::MAP_FAILED);
+        let prog_view = libc::mmap((span as *mut u8).add(PAGE) as *mut libc::c_void, PAGE, libc::PROT_NONE, libc::MAP_SHARED | libc::MAP_FIXED, fd, 0);
         let mon_view = libc::mmap(std::ptr::null_mut(), PAGE, libc::PROT_READ | libc::PROT_WRITE, libc::MAP_SHARED, fd, 0);
         assert!(prog_view != libc::MAP_FAILED && mon_view != libc::MAP_FAILED);
         let s = Box::new(Sim {
